@@ -22,7 +22,7 @@ RULE = ('polynomial programs R^N -> R^M (N,M <= 5) recorded at x_r with operand 
 ASSUMPTIONS = ['exact Fraction arithmetic for polynomial programs', 'forward-mode drivers are validated independently by C09',
                'drivers that reject a shape by an explicit ValueError are counted as unsupported (vec_hess_vec needs w.shape == x.shape)']
 DRIVERS = ['gradient', 'jacobian', 'hessian', 'jac_vec', 'vec_jac', 'hess_vec', 'vec_hess', 'vec_hess_vec', 'jacobian_utpm']
-REQUIRED = ['poly:' + d for d in DRIVERS] + ['prog:' + d for d in DRIVERS if d != 'jacobian_utpm'] + ['prog:gradient-list']
+REQUIRED = ['poly:' + d for d in DRIVERS] + ['prog:' + d for d in DRIVERS if d != 'jacobian_utpm'] + ['prog:gradient-list'] + ['wide:' + d for d in ('jacobian', 'jac_vec', 'vec_jac', 'gradient', 'hessian', 'hess_vec', 'vec_hess')]
 RECS = ['float', 'int', 'utpm11', 'utpm32']
 
 
@@ -39,6 +39,10 @@ def cases(tier, seed):
             out.append({'kind': 'prog', 'seed': case_seed('C04', seed, name, rep), 'params': {'prog': name, 'rec': RECS[(rep + len(name)) % 4]}})
     for i in range(60 if tier == 'quick' else 20000):
         out.append({'kind': 'prog', 'seed': case_seed('C04', seed, 'comp', i), 'params': {'prog': 'comp', 'rec': RECS[i % 4]}})
+    # many dependents / many independents (a residual vector of a fit, a discretised field): sizes beyond any block a driver may use
+    for k, (N, M) in enumerate([(3, 65), (4, 130), (70, 2), (3, 64), (130, 1)] if tier == 'quick' else
+                               [(3, 65), (4, 130), (70, 2), (3, 64), (130, 1), (2, 257), (5, 300), (260, 3), (33, 33), (1, 1025)]):
+        out.append({'kind': 'wide', 'seed': case_seed('C04', seed, 'wide', N, M), 'params': {'N': N, 'M': M, 'rec': RECS[k % 4]}})
     for pr in progs.cat():
         if len(pr.ins) >= 2 and not ({'refused', 'nopb', 'fancy', 'nonunique'} & pr.tags) and pr.name not in ('dot:TM', 'dot:MT'):
             for rep in range(1 if tier == 'quick' else 10):
@@ -145,7 +149,60 @@ def run_case(ctx, case):
         return _poly(ctx, case['params'], rng)
     if case['kind'] == 'gradlist':
         return _gradlist(ctx, case['params'], rng)
+    if case['kind'] == 'wide':
+        return _wide(ctx, case['params'], rng)
     return _prog(ctx, case['params'], rng)
+
+
+def _wide(ctx, p, rng):
+    """F(x) = sin(B x) * (C x) + exp(0.1 x_0) with M outputs and N inputs: analytic Jacobian and Hessian of w^T F from NumPy"""
+    N, M, rec = p['N'], p['M'], p['rec']
+    B = np.round(rng.normal(size=(M, N)), 2); C = np.round(rng.normal(size=(M, N)), 2)
+
+    def F(x):
+        return algopy.sin(algopy.dot(B, x)) * algopy.dot(C, x) + algopy.exp(0.1 * x[0])
+    xr = rng.integers(-2, 3, size=N).astype(float) if rec == 'int' else np.round(rng.normal(size=N), 2)
+    wts = np.round(rng.uniform(0.5, 1.5, size=M), 2)
+    try:
+        cgv, _ = progs.record(F, [_rec_operand(rec, xr, rng)])
+        cgs, _ = progs.record(lambda x: algopy.sum(F(x) * wts), [_rec_operand(rec, xr, rng)])
+    except Exception:
+        ctx.skip('not-traceable:wide:' + rec); return
+    cgv, cgs = _dup(rng, cgv), _dup(rng, cgs)
+    for ip in range(2):
+        x = xr.copy() if ip == 0 else np.round(rng.normal(size=N), 3)
+        where = 'at-recording-point' if ip == 0 else 'away'
+        s_, c_, l_ = np.sin(B @ x), np.cos(B @ x), C @ x
+        J = (c_ * l_)[:, None] * B + s_[:, None] * C
+        J[:, 0] += 0.1 * np.exp(0.1 * x[0])
+        Ja = np.abs(B) * np.abs(l_)[:, None] + np.abs(C) + 0.1 * np.exp(0.1 * x[0])
+
+        def hess(w):
+            H = np.einsum('m,mi,mj->ij', w * (-s_ * l_), B, B) + np.einsum('m,mi,mj->ij', w * c_, B, C) + np.einsum('m,mi,mj->ij', w * c_, C, B)
+            H[0, 0] += np.sum(w) * 0.01 * np.exp(0.1 * x[0])
+            return H
+        v = np.round(rng.normal(size=N), 2); w = np.round(rng.normal(size=M), 2)
+        js = float(np.max(Ja)) + 1e-12; hs = float(np.max(np.abs(B)) * np.max(np.abs(B)) * (1 + np.max(np.abs(l_))) + 2 * np.max(np.abs(B)) * np.max(np.abs(C)) + 1.0)
+        info = {'N': N, 'M': M, 'rec': rec, 'where': where}
+        rows = sorted({0, M - 1, min(M - 1, 63), min(M - 1, 64), int(rng.integers(M))})
+        calls = [('jacobian', lambda: np.asarray(cgv.jacobian(x.copy())).reshape(M, N), J, js),
+                 ('jac_vec', lambda: cgv.jac_vec(x.copy(), v.copy()), J @ v, js * np.sum(np.abs(v))),
+                 ('vec_jac', lambda: cgv.vec_jac(w.copy(), x.copy()), w @ J, js * np.sum(np.abs(w))),
+                 ('gradient', lambda: cgs.gradient(x.copy()), wts @ J, js * np.sum(wts)),
+                 ('hessian', lambda: cgs.hessian(x.copy()), hess(wts), hs * np.sum(wts)),
+                 ('hess_vec', lambda: cgs.hess_vec(x.copy(), v.copy()), hess(wts) @ v, hs * np.sum(wts) * np.sum(np.abs(v))),
+                 ('vec_hess', lambda: cgv.vec_hess(w.copy(), x.copy()), hess(w), hs * np.sum(np.abs(w)))]
+        calls += [('vec_jac', (lambda k: (lambda: cgv.vec_jac(np.eye(M)[k], x.copy())))(k), J[k], js) for k in rows]
+        for dname, call, ref, sc in calls:
+            mech = 'wide:%s:%s' % (dname, where)
+            try:
+                got = call()
+            except Exception as e:
+                ctx.violation(mech + ':raises', dict(info, driver=dname, error=str(e)[-250:])); return
+            ref = np.asarray(ref, dtype=float)
+            if not _cmp(ctx, mech, got, ref, np.full(ref.shape, sc), dict(info, driver=dname), tau=1e-9):
+                return
+            ctx.ok('wide:' + dname, ('wide', dname, N, M, where))
 
 
 def _fl(q):
@@ -338,6 +395,7 @@ def _prog(ctx, p, rng):
         if intargs and rng.random() < 0.35:
             xa, va, wa = xa.tolist(), va.tolist(), wa.tolist()
             info['argument_type'] = 'list of Python ints'
+        v2 = np.round(rng.normal(size=n), 2)
         X_ = lambda: (list(xa) if isinstance(xa, list) else xa.copy())
         V_ = lambda: (list(va) if isinstance(va, list) else va.copy())
         W_ = lambda: (list(wa) if isinstance(wa, list) else wa.copy())
@@ -345,10 +403,15 @@ def _prog(ctx, p, rng):
             ('gradient', lambda: cgs.gradient(np.asarray(X_())), wts @ Jf, js * np.sum(wts)),
             ('hessian', lambda: cgs.hessian(X_()), Hs, hs),
             ('hess_vec', lambda: cgs.hess_vec(X_(), V_()), Hs @ v, hs * np.sum(np.abs(v))),
+            # the Hessian column by column / several products at a fixed point: the same driver again with other vectors
+            ('hess_vec', lambda: cgs.hess_vec(X_(), v2.copy()), Hs @ v2, hs * np.sum(np.abs(v2))),
+            ('hess_vec', lambda: cgs.hess_vec(X_(), np.eye(n)[n - 1]), Hs[:, n - 1], hs),
             ('jacobian', lambda: np.asarray(cgv.jacobian(X_())).reshape(m, n), Jf, js),
             ('jac_vec', lambda: cgv.jac_vec(X_(), V_()), Jf @ v, js * np.sum(np.abs(v))),
             ('vec_jac', lambda: cgv.vec_jac(W_(), X_()), w @ Jf, js * np.sum(np.abs(w))),
             ('vec_hess', lambda: cgv.vec_hess(W_(), X_()), Hw, hw),
+            ('vec_jac', lambda: cgv.vec_jac(np.eye(m)[m - 1], X_()), Jf[m - 1], js),
+            ('jac_vec', lambda: cgv.jac_vec(X_(), v2.copy()), Jf @ v2, js * np.sum(np.abs(v2))),
         ]
         if m == n:
             calls.append(('vec_hess_vec', lambda: cgv.vec_hess_vec(W_(), X_(), V_()), Hw @ v, hw * np.sum(np.abs(v))))
